@@ -167,7 +167,7 @@ class Module:
             warnings.simplefilter("ignore")
             self.tree = ast.parse(src, filename=path)
         from .normalise import normalise
-        self.tree, self.normalised = normalise(self.tree)
+        self.tree, self.normalised = normalise(self.tree, relpath)
         self.is_pkg = os.path.basename(path) == "__init__.py"
         self.defs = {}  # last definition wins
         self.all_funcs = []  # every FuncInfo incl. shadowed ones and methods
